@@ -818,7 +818,7 @@ func HandleStore(deps ServerDeps, conn net.Conn, tag string, parts []string, sta
 	}
 
 	// Get user database
-	userDB, err := deps.GetUserDB(state.UserID)
+	userDB, targetUserID, err := deps.GetSelectedDB(state)
 	if err != nil {
 		deps.SendResponse(conn, fmt.Sprintf("%s NO Database error", tag))
 		return
@@ -867,7 +867,7 @@ func HandleStore(deps ServerDeps, conn net.Conn, tag string, parts []string, sta
 			cleanedFlagsStr := flagSetToString(cleanedFlags)
 
 			// Move to Spam folder
-			err = MoveMessageToMailbox(userDB, messageID, state.SelectedMailboxID, "Spam", state.UserID, cleanedFlagsStr, internalDate)
+			err = MoveMessageToMailbox(userDB, messageID, state.SelectedMailboxID, "Spam", targetUserID, cleanedFlagsStr, internalDate)
 			if err != nil {
 				log.Printf("Failed to move message %d to Spam: %v", messageID, err)
 			} else {
@@ -885,7 +885,7 @@ func HandleStore(deps ServerDeps, conn net.Conn, tag string, parts []string, sta
 			cleanedFlagsStr := flagSetToString(cleanedFlags)
 
 			// Move to INBOX
-			err = MoveMessageToMailbox(userDB, messageID, state.SelectedMailboxID, "INBOX", state.UserID, cleanedFlagsStr, internalDate)
+			err = MoveMessageToMailbox(userDB, messageID, state.SelectedMailboxID, "INBOX", targetUserID, cleanedFlagsStr, internalDate)
 			if err != nil {
 				log.Printf("Failed to move message %d to INBOX: %v", messageID, err)
 			} else {
@@ -1024,7 +1024,7 @@ func HandleCopy(deps ServerDeps, conn net.Conn, tag string, parts []string, stat
 	destMailbox := strings.Trim(strings.Join(parts[2:], " "), "\"")
 
 	// Get user database
-	userDB, err := deps.GetUserDB(state.UserID)
+	userDB, targetUserID, err := deps.GetSelectedDB(state)
 	if err != nil {
 		deps.SendResponse(conn, fmt.Sprintf("%s NO Database error", tag))
 		return
@@ -1042,7 +1042,7 @@ func HandleCopy(deps ServerDeps, conn net.Conn, tag string, parts []string, stat
 	err = userDB.QueryRow(`
 		SELECT id FROM mailboxes
 		WHERE name = ? AND user_id = ?
-	`, destMailbox, state.UserID).Scan(&destMailboxID)
+	`, destMailbox, targetUserID).Scan(&destMailboxID)
 
 	if err != nil {
 		// Destination mailbox doesn't exist - return NO with [TRYCREATE]
@@ -1535,7 +1535,7 @@ func HandleExpunge(deps ServerDeps, conn net.Conn, tag string, state *models.Cli
 	// TODO: Add ReadOnly field to ClientState to properly handle EXAMINE
 
 	// Get user database
-	userDB, err := deps.GetUserDB(state.UserID)
+	userDB, _, err := deps.GetSelectedDB(state)
 	if err != nil {
 		deps.SendResponse(conn, fmt.Sprintf("%s NO Database error", tag))
 		return
@@ -1648,7 +1648,7 @@ func HandleCheck(deps ServerDeps, conn net.Conn, tag string, state *models.Clien
 	}
 
 	// Get user database
-	userDB, err := deps.GetUserDB(state.UserID)
+	userDB, _, err := deps.GetSelectedDB(state)
 	if err != nil {
 		deps.SendResponse(conn, fmt.Sprintf("%s OK CHECK completed", tag))
 		return
